@@ -1,6 +1,7 @@
 mod checks;
 mod compile;
 mod dap;
+mod dap13;
 mod layer_a;
 mod layer_b;
 mod mtprog;
@@ -28,6 +29,18 @@ fn main() {
         }
         Some("replay") => std::process::exit(orch::replay(&args[2])),
         Some("worker") => std::process::exit(worker::worker_main(&args[2])),
+        Some("denote") => {
+            let (bin, src) = (args[2].clone(), args[3].clone());
+            let fns: Vec<String> = args[4..].to_vec();
+            let code = ns::run_in_namespace(move || match dap13::denote(&bin, &src, &fns) {
+                Ok(()) => 0,
+                Err(e) => {
+                    eprintln!("denote: {e}");
+                    2
+                }
+            });
+            std::process::exit(code);
+        }
         Some("gen") => {
             let seed: u64 = args[2].parse().unwrap();
             let mut t = rng::Tape::record(rng::derive(seed, "prog", 0));
